@@ -5,9 +5,38 @@ use crate::runner::*;
 use h263_rs_deblock::deblock::{deblock, QUANT_TO_STRENGTH};
 use serde_json::{json, Map, Value};
 
-fn one(seed: u64, w: usize, h: usize, s: u8) -> Result<(), String> {
-    let data = super::content_bytes(seed ^ ((w as u64) << 24) ^ ((h as u64) << 8) ^ s as u64, w * h);
-    let out = guard(|| deblock(&data, w, s)).map_err(|p| format!("deblock({}x{}, strength {}) panicked: {}", w, h, s, p))?;
+/// Image contents. 0: hash bytes; 1: hash-chosen extremes (0 / 255); 2, 3: one-sample column
+/// stripes 255/0 in both phases; 4, 5: one-sample row stripes; 6, 7: checkerboards. The stripes put
+/// the largest possible filter differences (|d| = 159) on every block edge, in the vector part
+/// and in the remainder columns alike.
+pub const CONTENTS: u32 = 8;
+const CONTENT_NAMES: [&str; 8] = ["hash bytes", "extremes", "column stripes", "column stripes (other phase)", "row stripes", "row stripes (other phase)", "checkerboard", "checkerboard (other phase)"];
+
+fn content(seed: u64, w: usize, h: usize, s: u8, kind: u32) -> Vec<u8> {
+    match kind {
+        0 => super::content_bytes(seed ^ ((w as u64) << 24) ^ ((h as u64) << 8) ^ s as u64, w * h),
+        1 => super::content_bytes(seed ^ ((w as u64) << 24) ^ ((h as u64) << 8) ^ s as u64, w * h).iter().map(|b| if b & 1 == 0 { 0 } else { 255 }).collect(),
+        _ => {
+            let phase = (kind & 1) as usize;
+            let mut v = vec![0u8; w * h];
+            for y in 0..h {
+                for x in 0..w {
+                    let k = match kind {
+                        2 | 3 => x,
+                        4 | 5 => y,
+                        _ => x + y,
+                    };
+                    v[x + y * w] = if (k + phase) % 2 == 0 { 255 } else { 0 };
+                }
+            }
+            v
+        }
+    }
+}
+
+fn one(seed: u64, w: usize, h: usize, s: u8, kind: u32) -> Result<(), String> {
+    let data = content(seed, w, h, s, kind);
+    let out = guard(|| deblock(&data, w, s)).map_err(|p| format!("deblock({}x{}, strength {}, content: {}) panicked: {}", w, h, s, CONTENT_NAMES[kind as usize], p))?;
     if out.len() != data.len() {
         return Err(format!("deblock({}x{}, strength {}) returned {} samples for {} input samples", w, h, s, out.len(), data.len()));
     }
@@ -18,27 +47,29 @@ fn grid_item(seed: u64, wmax: u64, i: u64, acc: &mut Acc) {
     let w = (i % wmax + 1) as usize;
     let h = (i / wmax) as usize;
     for s in 1..=12u8 {
-        if let Err(m) = one(seed, w, h, s) {
-            acc.fail(json!({"kind":"params","w":w,"h":h,"strength":s}), m);
-            return;
+        for kind in 0..CONTENTS {
+            if let Err(m) = one(seed, w, h, s, kind) {
+                acc.fail(json!({"kind":"params","w":w,"h":h,"strength":s,"content":kind}), m);
+                return;
+            }
         }
     }
     let nontrivial = h < 2 || w < 10 || w % 8 != 0 || h % 8 != 0;
-    acc.count_n(12, if nontrivial { 12 } else { 0 });
+    acc.count_n(12 * CONTENTS as u64, if nontrivial { 12 * CONTENTS as u64 } else { 0 });
     if h < 2 {
-        acc.label_n("fewer than two rows", 12);
+        acc.label_n("fewer than two rows", 12 * CONTENTS as u64);
     }
     if w < 10 {
-        acc.label_n("fewer than ten columns", 12);
+        acc.label_n("fewer than ten columns", 12 * CONTENTS as u64);
     }
     if w % 8 != 0 {
-        acc.label_n("remainder columns", 12);
+        acc.label_n("remainder columns", 12 * CONTENTS as u64);
     }
     if h % 8 != 0 {
-        acc.label_n("remainder rows", 12);
+        acc.label_n("remainder rows", 12 * CONTENTS as u64);
     }
     if w == 9 && h == 1 {
-        acc.sample(|| json!({"w": w, "h": h, "strengths": "1..=12", "content": "hash bytes"}));
+        acc.sample(|| json!({"w": w, "h": h, "strengths": "1..=12", "contents": CONTENT_NAMES}));
     }
 }
 
@@ -66,11 +97,13 @@ fn extreme_item(seed: u64, i: u64, acc: &mut Acc) {
     let wide = (i / 192) % 2 == 0;
     let (w, h) = if wide { (big, small) } else { (small.max(1), big) };
     for s in [1u8, 5, 12] {
-        if let Err(m) = one(seed, w, h, s) {
-            acc.fail(json!({"kind":"params","w":w,"h":h,"strength":s}), m);
-            return;
+        for kind in [0u32, 2, 5, 6] {
+            if let Err(m) = one(seed, w, h, s, kind) {
+                acc.fail(json!({"kind":"params","w":w,"h":h,"strength":s,"content":kind}), m);
+                return;
+            }
+            acc.count(true);
         }
-        acc.count(true);
     }
 }
 
@@ -114,7 +147,7 @@ pub fn run(ctx: &Ctx) -> i32 {
         ctx,
         reports,
         Summary {
-            rule: "Enumerated: every width x height x strength in the stated box (content = hash bytes keyed by the parameters and VERIF_SEED) must return a vector of the input length without panicking; all 31 entries of the quantizer-to-strength table are compared with Table J.2. Non-trivial = fewer than 2 rows, fewer than 10 columns, or a size with remainder rows/columns.",
+            rule: "Enumerated: every width x height x strength in the stated box with eight contents (hash bytes keyed by the parameters and VERIF_SEED, hash-chosen extremes, one-sample 255/0 column stripes, row stripes and checkerboards in both phases, which put the extreme filter differences on every edge) must return a vector of the input length without panicking; all 31 entries of the quantizer-to-strength table are compared with Table J.2. Non-trivial = fewer than 2 rows, fewer than 10 columns, or a size with remainder rows/columns.",
             assumptions: vec!["data.len() is a multiple of width (documented precondition); width >= 1".into()],
             exhaustive: false,
             extra,
@@ -128,7 +161,8 @@ pub fn replay(suite: &str, case: &Value) -> Option<Verdict> {
             let w = case["w"].as_u64()? as usize;
             let h = case["h"].as_u64()? as usize;
             let s = case["strength"].as_u64()? as u8;
-            Some(match one(case["seed"].as_u64().unwrap_or(1), w, h, s) {
+            let kind = case["content"].as_u64().unwrap_or(0) as u32 % CONTENTS;
+            Some(match one(case["seed"].as_u64().unwrap_or(1), w, h, s, kind) {
                 Ok(()) => Verdict::pass(true, 0),
                 Err(m) => Verdict::fail(m),
             })
